@@ -43,8 +43,11 @@ func (d *driver) concCall(cfg *ipa.IPAConfig, op string, g, i int) []int {
 		c := cfg.Commit(f)
 		b := c.Bytes()
 		h.Write(b[:])
-	case "prove":
+	case "prove", "bigprove":
 		n := 1 + (g+i)%6
+		if op == "bigprove" { // enough openings for more than a kilobyte of pending transcript data and for every grouping worker to get a batch
+			n = 12 + (g+i)%24
+		}
 		fs := make([][]fr.Element, n)
 		cs := make([]*banderwagon.Element, n)
 		zs := make([]uint8, n)
